@@ -20,9 +20,12 @@ From TL Require Import Lib.Base Lib.GenTypes Model.PlacementTypes Gen.PlacementG
 (* true = "do what the code does", false = "do what the property demands". *)
 Record pquirks := {
   q_global_on_covered        : bool;  (* global_deny / global_patterns are applied to files covered by a directory rule *)
-  q_prefix_without_separator : bool;  (* a directory key matches by bare startswith: `src` covers `src2/x` and `srcfile.py` *)
-  q_path_relative_to_cwd     : bool;  (* a path given relative to the working directory is judged as if relative to the root *)
-  q_allow_dict_unsupported   : bool;  (* documented allow items {pattern: ..} raise TypeError in validation (swallowed) *)
+  (* the next three were defects of the original tree, repaired by fix: commits (a23cd20, 12368d4, 423132c).
+     true = follow the form found in the source (Gen: fp_prefix_form, fp_relative_resolved,
+     fp_allow_dict_supported), false = the property's form.  With the repaired source both coincide (proved). *)
+  q_prefix_without_separator : bool;  (* was: a key matches by bare startswith: `src` covers `src2/x` and `srcfile.py` *)
+  q_path_relative_to_cwd     : bool;  (* was: a path given relative to the working directory is judged as if relative to the root *)
+  q_allow_dict_unsupported   : bool;  (* was: documented allow items {pattern: ..} raise TypeError in validation (swallowed) *)
   q_trailing_slash_depth     : bool;  (* the depth of a key written with a trailing slash counts the empty last component:
                                          `lib/` ties with `lib/core` and, listed first, judges lib/core/x *)
 }.
@@ -78,13 +81,14 @@ Fixpoint split_on (c : ascii) (s : string) : list string :=
   end.
 
 (* a directory key without its trailing slashes (`lib/` and `lib` name the same directory) *)
-Fixpoint rstrip_slash (s : string) : string :=
+Fixpoint rstrip_char (x : ascii) (s : string) : string :=       (* str.rstrip(x) for a one-character set *)
   match s with
   | EmptyString => EmptyString
   | String c s' =>
-    let r := rstrip_slash s' in
-    if Ascii.eqb c "/" && String.eqb r "" then EmptyString else String c r
+    let r := rstrip_char x s' in
+    if Ascii.eqb c x && String.eqb r "" then EmptyString else String c r
   end.
+Definition rstrip_slash (s : string) : string := rstrip_char "/" s.
 
 Definition or_str (a b : string) : string := if String.eqb a "" then b else a.   (* Python `a or b` *)
 
@@ -134,8 +138,15 @@ Section Engine.
     existsb (fun a => matches (aitem_pattern a) p) l.
 
   (* ---------------------------------------------------------------- DirectoryMatcher *)
+  (* the prefix test as written in the source *)
+  Definition code_prefix_test (d p : string) : bool :=
+    match fp_prefix_form with
+    | PfBare => starts_with d p
+    | PfRstripSep c sep => starts_with (rstrip_char c d ++ sep) p
+    end.
+
   Definition prefix_test (q : pquirks) (d p : string) : bool :=
-    if q_prefix_without_separator q then starts_with d p else starts_with (rstrip_slash d ++ "/") p.
+    if q_prefix_without_separator q then code_prefix_test d p else starts_with (rstrip_slash d ++ "/") p.
 
   Definition check_path_match (q : pquirks) (d p : string) : option Z :=
     if String.eqb d fp_root_key then
@@ -230,7 +241,7 @@ Section Engine.
   Definition v_aitem (q : pquirks) (a : aitem) : vres :=
     match a with
     | AStr p => vpat p
-    | ADict p => if q_allow_dict_unsupported q then VCrash else vpat p
+    | ADict p => if q_allow_dict_unsupported q && negb fp_allow_dict_supported then VCrash else vpat p
     end.
 
   Definition v_list {A} (f : A -> vres) (l : option (list A)) : vres :=
@@ -255,7 +266,7 @@ Section Engine.
 
   (* ---------------------------------------------------------------- PathResolver + the whole run *)
   Definition eff_path (q : pquirks) (f : fileq) : string :=
-    if q_path_relative_to_cwd q && f_relative f then f_rest f else relpath f.
+    if q_path_relative_to_cwd q && negb fp_relative_resolved && f_relative f then f_rest f else relpath f.
 
   Definition run (q : pquirks) (c : config) (f : fileq) : outcome :=
     match validate q c with
